@@ -78,6 +78,8 @@ def _parse_time(expr, frame_rate, multiplier, tick_rate):
   m = _CLOCK.match(expr)
   if m:
     hh, mm, ss, frac, ff = m.groups()
+    if int(mm) > 59 or int(ss) > 60:
+      raise Malformed("minutes are 00-59 and seconds 00-60 (TTML2 12.3.1)")
     t = Fraction(int(hh) * 3600 + int(mm) * 60 + int(ss))
     if frac is not None:
       t += Fraction("0" + frac)
